@@ -16,6 +16,15 @@ Ops == { [op |-> "NewFace", f |-> f] : f \in 1..3 } \cup { [op |-> "SetVariation
        \cup { [op |-> "Data", g |-> g] : g \in {3, 30} } \cup { [op |-> "Split", t |-> t] : t \in 1..2 }
        \cup { [op |-> "Resolve", r |-> r] : r \in {97, 1488} }
 
+(* The sweep program: one fixed behaviour of a goroutine (static phase, then the same operations on *)
+(* a varied face), run by several goroutines on every font of the corpus in turn so that every      *)
+(* font's lazily-touched shared data is exercised concurrently, not only the fonts the random sets  *)
+(* happen to select. It is printed for the driver (flow G) and must be a legal program.             *)
+Sweep == << [op |-> "Shape", t |-> 1], [op |-> "Extents", g |-> 3], [op |-> "Data", g |-> 30],
+            [op |-> "SetVariations", w |-> 900], [op |-> "Shape", t |-> 2], [op |-> "Extents", g |-> 30], [op |-> "Data", g |-> 3] >>
+ASSUME \A i \in DOMAIN Sweep : Sweep[i] \in Ops
+ASSUME PrintT("W|" \o ToJson(Sweep))
+
 Init == /\ prog = [g \in 1..G |-> << >>] /\ pc = [g \in 1..G |-> 1] /\ local = [g \in 1..G |-> << >>]
         /\ results = [g \in 1..G |-> << >>] /\ phase = "build"
 Build == /\ phase = "build"
